@@ -122,8 +122,9 @@ func main() {
 
 	evmDenomGuard := sendToEvmDenomGuard(handlerOf["precompileFunToken.sendToEvm"])
 	erc20NulGuard := getErc20NulGuard(handlerOf["precompileFunToken.getErc20Address"], methodsOf)
-	fmt.Printf("Definition current_guards : panic_guards := {|\n  g_len := %s;\n  g_denom := %s;\n  g_amount := %s;\n  g_evm_denom := %s;\n  g_erc20_nul := %s |}.\n",
-		CoqBool(lenGuard), CoqBool(denomGuard), CoqBool(amountGuard), CoqBool(evmDenomGuard), CoqBool(erc20NulGuard))
+	supplyGuard := sendToBankSupplyGuard(handlerOf["precompileFunToken.sendToBank"])
+	fmt.Printf("Definition current_guards : panic_guards := {|\n  g_len := %s;\n  g_denom := %s;\n  g_amount := %s;\n  g_evm_denom := %s;\n  g_erc20_nul := %s;\n  g_supply := %s |}.\n",
+		CoqBool(lenGuard), CoqBool(denomGuard), CoqBool(amountGuard), CoqBool(evmDenomGuard), CoqBool(erc20NulGuard), CoqBool(supplyGuard))
 	fmt.Printf("Definition current_facts : facts := {|\n  f_funtoken := funtoken_facts;\n  f_wasm := wasm_facts;\n  f_oracle := oracle_facts;\n  f_guards := current_guards;\n")
 	fmt.Printf("  f_local_meter := %s;\n  f_oog_only := %s;\n  f_direct_ro := %s;\n  f_call_inherits_static := %s |}.\n",
 		CoqBool(localMeter), CoqBool(oogOnly), CoqBool(g.directRO), CoqBool(g.callInherits))
@@ -594,6 +595,41 @@ func sendToEvmDenomGuard(fd *ast.FuncDecl) bool {
 		}
 	}
 	return false
+}
+
+// sendToBank: before every bank MintCoins call an if whose condition compares a BitLen() with
+// math.MaxBitLen and whose body returns (the sum supply + amount is checked against 256 bits)
+func sendToBankSupplyGuard(fd *ast.FuncDecl) bool {
+	if fd == nil || fd.Body == nil {
+		return false
+	}
+	var mints, guards []token.Pos
+	ast.Inspect(fd.Body, func(n ast.Node) bool {
+		switch x := n.(type) {
+		case *ast.CallExpr:
+			if strings.HasSuffix(Nospace(x.Fun), ".MintCoins") {
+				mints = append(mints, x.Pos())
+			}
+		case *ast.IfStmt:
+			c := Nospace(x.Cond)
+			if strings.Contains(c, ".BitLen()>math.MaxBitLen") && returnsInside(x.Body) {
+				guards = append(guards, x.Pos())
+			}
+		}
+		return true
+	})
+	for _, m := range mints {
+		ok := false
+		for _, g := range guards {
+			if g < m {
+				ok = true
+			}
+		}
+		if !ok {
+			return false
+		}
+	}
+	return true
 }
 
 // getErc20Address: NUL characters are rejected before the index lookup, either in the handler
